@@ -238,3 +238,5 @@ func Yield() {}
 // alternate whenever one of them has to wait. JoinThread lets it finish and reports whether one ran.
 func SpawnAsThread(on bool) {}
 func JoinThread() bool      { return false }
+
+func InstallSyncMap() {}
